@@ -13,15 +13,15 @@
   OBLIGATION c28_result_lookup
   OBLIGATION c28_split_disjoint
   OBLIGATION c28_load_split
-  OPEN c28_live
+  OBLIGATION c28_live
 
-  What is OPEN: `c28_live` — after
-  `drain` from any reachable state no request is still waiting.  Its safety core IS proved:
-  `c28_inv` (a non-empty pending queue always has an outstanding StartFetch task, so it is taken
-  by some timer) and `c28_batch` (every taken queue is delivered to the waiters of that task by
-  `c28_result`); the remaining step (the three folds of `drain` leave every task finished and
-  every waiter delivered) is only validated by the correspondence (predicate L of
-  Spec/Loader.lean on every case ending in `drain`).
+  `c28_live`: after `drain` from any reachable state no request is still waiting.  Proof (lemmas
+  in AGV/Lemmas/Loader.lean, section "liveness of `drain`"): a second invariant `Inv2` (request ids
+  are used once; every waiting request sits in the pending queue or among the waiters of a task
+  that is in flight or is a not-yet-polled ImmediateLoad) holds in every reachable state; each of
+  the three folds of `drainStep` establishes its postcondition (after running: no task is fresh;
+  after firing: none waits for its timer, hence by `c28_inv` the queue is empty; after answering:
+  every task has finished), so by `Inv2` nobody can still be waiting.
 -/
 import AGV.Lemmas.Loader
 
@@ -108,10 +108,23 @@ theorem c28_load_split (s : St) (ks : List Key) (k : Key) (hk : k ∈ ks) :
       (s.cache.lookup k).isSome ∧ (split s ks).2.lookup k = s.cache.lookup k) :=
   split_complete s ks k hk
 
-/-- OPEN: drain completes every uncancelled load -/
-def c28_live : Prop :=
-  ∀ (max delay : Nat) (hasCache : Bool) (feed : KV) (acts : List Act),
-    (step (runAll (init max delay hasCache feed) acts) .drain).waitingReqs = []
+/-- Liveness: from every reachable state, `drain` (first poll of every spawned task, every timer
+    elapses, every batch is answered) completes every load that was not cancelled: no request is
+    left waiting. -/
+theorem c28_live (max delay : Nat) (hasCache : Bool) (feed : KV) (acts : List Act) :
+    (step (runAll (init max delay hasCache feed) acts) .drain).waitingReqs = [] := by
+  have h1 : Inv (runAll (init max delay hasCache feed) acts) :=
+    runAll_inv acts _ (init_inv max delay hasCache feed)
+  have h2 : Inv2 (runAll (init max delay hasCache feed) acts) :=
+    runAll_inv2 acts _ (init_inv max delay hasCache feed) (init_inv2 max delay hasCache feed)
+  exact drainStep_no_waiting (Inv.congr (by rfl) h1) (Inv2.congr (by rfl) h2)
+
+/-- `c28_live` is not vacuous: before the drain three requests are waiting (two in an unpolled
+    ImmediateLoad, one in the queue behind a timer) and a fourth, also in the queue, was cancelled -/
+example :
+    let s := runAll (init 2 1 false []) [.load 0 [1], .load 1 [2, 3], .load 2 [4], .load 3 [4], .cancel 3]
+    s.waitingReqs = [0, 1, 2] ∧ s.pending.map (·.rid) = [2, 3] ∧ (step s .drain).waitingReqs = [] := by
+  decide
 
 /-- the hypothesis of `c28_result` is satisfiable: answering a batch of two requests produces two deliveries -/
 example : (step (runAll (init 2 1 false []) [.load 0 [1], .load 1 [2], .run 1]) (.done 1 (.okall 100))).out.length = 2 := by
